@@ -49,6 +49,13 @@ def programs(quick):
                 progs.append('%s;;store2,store3,store4;load,load' % c)
                 progs.append('%s;store9;store2,update10,store3;load;load,load' % c)
                 progs.append('%s;;update10,update10;update10;load,load' % c)
+    # "for every number of writes": the version counter starts just below 2^33 (config suffix w, white box: first word of the object), so that the
+    # slot arithmetic is exercised where version >> 1 no longer fits 32 bits (seeded change c14_6: slot index computed from a truncated version)
+    for b in (16, 24):
+        for s in ((3,) if quick else (3, 2, 4)):
+            c = 's%db%dw' % (s, b)
+            progs.append('%s;;store2,load,store3,load,store5,load,store7,load,update10,load' % c)
+            progs.append('%s;;store2,store3,store5;load,load,load' % c)
     return progs
 
 
